@@ -15,6 +15,8 @@ HARNESSES = [
        defines={"PRE": 1}, tiers={"quick": {"defines": {"NTYPES": 2}}, "thorough": {}}, object_bits=13, unwindset=seed_uw(**{"h_insert.0": 4, "h_insert.1": 17, "h_insert.2": 6, "insert_case.0": 18, "insert_case.1": 6, "insert_case.2": 8, "insert_case.3": 8}), bounds="Machine with a Core{PU0,PU1} and PU2 (pre-connect); new object of type Group(dont_merge 0/1)/Package (quick) + Core/L2 (thorough) with any of the 15 cpusets over 4 bits: the 75 cases are executed as concrete runs selected by symbolic inputs", cost=60),
   dict(COMMON, name="insert_nested2", entry="h_insert", encoded=["hwloc__insert_object_by_cpuset", "hwloc___insert_object_by_cpuset", "hwloc_obj_cmp_sets", "hwloc_type_cmp", "hwloc__insert_try_merge_group", "merge_insert_equal", "hwloc__object_cpusets_compare_first"],
        defines={"PRE": 2}, tiers={"quick": {"defines": {"NTYPES": 2}}, "thorough": {}}, object_bits=13, unwindset=seed_uw(**{"h_insert.0": 4, "h_insert.1": 17, "h_insert.2": 6, "insert_case.0": 18, "insert_case.1": 6, "insert_case.2": 8, "insert_case.3": 8}), bounds="Machine with PU0 and a Core{PU1,PU2} (pre-connect); new object of type Group(dont_merge 0/1)/Package (quick) + Core/L2 (thorough) with any of the 15 cpusets over 4 bits: the 75 cases are executed as concrete runs selected by symbolic inputs", cost=60),
+  dict(COMMON, name="insert_nested3", entry="h_insert", encoded=["hwloc__insert_object_by_cpuset", "hwloc___insert_object_by_cpuset (incl. the put-back of a refused insertion with holes)", "hwloc_obj_cmp_sets", "hwloc__insert_try_merge_group"],
+       defines={"PRE": 3, "NTYPES": 1}, tiers={"quick": {}, "thorough": {}}, object_bits=13, unwindset=seed_uw(**{"h_insert.0": 4, "h_insert.1": 33, "h_insert.2": 6, "insert_case.0": 18, "insert_case.1": 8, "insert_case.2": 10, "insert_case.3": 10, "insert_case.4": 10, "insert_case.5": 10, "insert_case.6": 10, "insert_case.7": 10, "insert_case.8": 10}), bounds="Machine with PU0, PU1, PU2 and a Core{PU3,PU4} (pre-connect); a new Group (dont_merge 0/1) with any of the 31 cpusets over 5 bits: 62 concrete runs selected by symbolic inputs; refused insertions that already took non-adjacent children (PU0 and PU2, not PU1) must put them back in place", cost=60),
 ]
 for seed in (1, 2, 5):
     HARNESSES.append(dict(COMMON, name="sets_s%d" % seed, entry="h_sets", defines={"SEED": seed}, encoded=["propagate_nodeset", "fixup_sets", "remove_unused_sets"], tiers={"quick": {}, "thorough": {}} if seed in (1, 5) else {"thorough": {}},
